@@ -29,6 +29,11 @@ var strLits = [][2]string{{"x", "x"}, {"<", "<"}, {`\\u003c`, `\u003c`}, {"é", 
 	{"😀", "😀"}, {"&>", "&>"}, {`\t\r`, "\t\r"}, {"%s", "%s"}, {`\\u0026`, `\u0026`}, {"\u2028", "\u2028"}}
 var strLit = strLits[0]
 
+// member names: the abstract names "a" / "b" are written with a suffix that rotates with the document (as written in the JSON
+// input, and the value it denotes) - control characters, DEL, a character beyond the basic plane: names are strings too
+var keySufs = [][2]string{{"", ""}, {`\u0001`, "\x01"}, {`\u007f`, "\x7f"}, {`\u000b`, "\v"}, {`\udb80\udc00`, "\U000f0000"}, {"é", "é"}, {" ", " "}}
+var keySuf = keySufs[0]
+
 type rowT struct {
 	ID  int             `json:"id"`
 	Doc json.RawMessage `json:"doc"`
@@ -72,7 +77,7 @@ func render(d map[string]interface{}) string {
 		parts := []string{}
 		for _, m := range d["m"].([]interface{}) {
 			kv := m.([]interface{})
-			parts = append(parts, `"`+kv[0].(string)+`":`+render(kv[1].(map[string]interface{})))
+			parts = append(parts, `"`+kv[0].(string)+keySuf[0]+`":`+render(kv[1].(map[string]interface{})))
 		}
 		return "{" + strings.Join(parts, ",") + "}"
 	case "arr":
@@ -110,6 +115,9 @@ func tokens(s string) []string {
 				return out
 			}
 			out = append(out, `"`)
+			if keySuf[1] != "" && (v == "a"+keySuf[1] || v == "b"+keySuf[1]) {
+				v = v[:1] // a member name as the document wrote it
+			}
 			for k := 0; k < len(v); {
 				switch {
 				case strings.HasPrefix(v[k:], strLit[1]):
@@ -177,6 +185,7 @@ func main() {
 		}
 		num, big = numLits[r.ID%len(numLits)], bigLits[(r.ID/len(numLits))%len(bigLits)]
 		strLit = strLits[(r.ID/3)%len(strLits)]
+		keySuf = keySufs[(r.ID/5)%len(keySufs)]
 		o := obsT{ID: r.ID, Doc: r.Doc, Text: render(d), Wire: []string{}, Back: []string{}}
 		wire, werr := ship.JsonIntoEEBUSJson([]byte(o.Text))
 		if werr != nil {
